@@ -164,20 +164,18 @@ theorem idcase_map_idem (c : CaseConv) (hc : ∀ v, c.apply (c.apply v) = c.appl
   · have h1 : idCaseSpec c t = t := by simp only [idCaseSpec, h]; rfl
     rw [h1, h1]
 
-/-- `TruncateStringFilter(width, char)` with a `str` char on one token -/
+/-- `TruncateStringFilter(width, char)` with a `str` char on one token (repo fix 465bc40: one delimiting quote on each side) -/
 def truncSpec (w : Int) (ch : Text) (t : Tok) : Tok :=
   if t.tt == T.StringSingle then
-    let dbl := t.val.take 2 == [39, 39]
-    let inner := if dbl then sliceInner 2 t.val else sliceInner 1 t.val
-    let quote : Text := if dbl then [39, 39] else [39]
-    if (inner.length : Int) > w then ⟨t.tt, quote ++ takeInt w inner ++ ch ++ quote⟩ else t
+    let inner := sliceInner 1 t.val
+    if (inner.length : Int) > w then ⟨t.tt, [39] ++ takeInt w inner ++ ch ++ [39]⟩ else t
   else t
 
 theorem truncTok_str (w : Int) (ch : Text) (t : Tok) : truncTok w (.str ch) t = .ok (truncSpec w ch t) := by
   unfold truncTok truncSpec
   by_cases h : t.tt = T.StringSingle
   · simp only [h, bne_self_eq_false, Bool.false_eq_true, if_false, beq_self_eq_true, if_true]
-    split <;> split <;> rfl
+    split <;> rfl
   · simp [h]
 
 theorem truncate_spec (w : Int) (ch : Text) (ts : List Tok) :
@@ -198,96 +196,42 @@ theorem sliceInner_wrap (a : Nat) (q m q' : Text) (hq : q.length = a) (hq' : q'.
 theorem takeInt_nonneg (w : Int) (hw : 0 ≤ w) (v : Text) : takeInt w v = v.take w.toNat := by
   simp [takeInt, hw]
 
-/-- the truncated value, as a function of the quote, the kept part and the marker -/
-theorem truncSpec_wrapped (w : Int) (hw : 1 ≤ w) (ch q m : Text) (tt : TType) (htt : tt = T.StringSingle)
-    (hq : q = [39, 39] ∨ (q = [39] ∧ m.head? ≠ some 39 ∧ m ≠ []))
+/-- the truncated value, as a function of the kept part and the marker, is a fixed point -/
+theorem truncSpec_wrapped (w : Int) (hw : 1 ≤ w) (ch m : Text) (tt : TType) (htt : tt = T.StringSingle)
     (hm : m.length = w.toNat) :
-    truncSpec w ch ⟨tt, q ++ m ++ ch ++ q⟩ = ⟨tt, q ++ m ++ ch ++ q⟩ := by
+    truncSpec w ch ⟨tt, [39] ++ m ++ ch ++ [39]⟩ = ⟨tt, [39] ++ m ++ ch ++ [39]⟩ := by
   have hw0 : 0 ≤ w := by omega
   unfold truncSpec
   simp only [htt, beq_self_eq_true, if_true]
-  rcases hq with rfl | ⟨rfl, hh, hne⟩
-  · have hd : (([39, 39] ++ m ++ ch ++ [39, 39] : Text).take 2 == [39, 39]) = true := by simp
-    simp only [hd, if_true]
-    have hs : sliceInner 2 ([39, 39] ++ m ++ ch ++ [39, 39]) = m ++ ch := by
-      have := sliceInner_wrap 2 [39, 39] (m ++ ch) [39, 39] rfl rfl
-      simpa [List.append_assoc] using this
-    rw [hs]
-    by_cases hl : ((m ++ ch).length : Int) > w
-    · simp only [hl, if_true]
-      rw [takeInt_nonneg w hw0, List.take_left' hm]
-    · simp only [hl, if_false]
-  · obtain ⟨x, r, rfl⟩ := List.exists_cons_of_ne_nil hne
-    have hx : x ≠ 39 := by simpa using hh
-    have hd : (([39] ++ (x :: r) ++ ch ++ [39] : Text).take 2 == [39, 39]) = false := by
-      simp [hx]
-    simp only [hd, Bool.false_eq_true, if_false]
-    have hs : sliceInner 1 ([39] ++ (x :: r) ++ ch ++ [39]) = (x :: r) ++ ch := by
-      have := sliceInner_wrap 1 [39] ((x :: r) ++ ch) [39] rfl rfl
-      simpa [List.append_assoc] using this
-    rw [hs]
-    by_cases hl : (((x :: r) ++ ch).length : Int) > w
-    · simp only [hl, if_true]
-      rw [takeInt_nonneg w hw0, List.take_left' hm]
-    · simp only [hl, if_false]
+  have hs : sliceInner 1 ([39] ++ m ++ ch ++ [39]) = m ++ ch := by
+    have := sliceInner_wrap 1 [39] (m ++ ch) [39] rfl rfl
+    simpa [List.append_assoc] using this
+  rw [hs]
+  by_cases hl : ((m ++ ch).length : Int) > w
+  · simp only [hl, if_true]
+    rw [takeInt_nonneg w hw0, List.take_left' hm]
+  · simp only [hl, if_false]
 
-/-- idempotence of the truncation of one token: for a width `≥ 1` (validate_options enforces `≥ 2`) and a string token
-that starts with a quote (as the lexer's do) -/
+/-- idempotence of the truncation of one token, for a width `≥ 1` (validate_options enforces `≥ 2`); the hypothesis about the opening quote
+(as the lexer's string tokens have it) was needed for the two-quote special case removed by fix 465bc40 and is kept for the citing statements -/
 theorem truncSpec_idem (w : Int) (hw : 1 ≤ w) (ch : Text) (t : Tok)
-    (hv : t.tt = T.StringSingle → t.val.head? = some 39) :
+    (_hv : t.tt = T.StringSingle → t.val.head? = some 39) :
     truncSpec w ch (truncSpec w ch t) = truncSpec w ch t := by
   have hw0 : 0 ≤ w := by omega
   by_cases htt : t.tt = T.StringSingle
   · obtain ⟨tt, v⟩ := t
-    simp only at htt hv
-    have hv' := hv htt
-    by_cases hd : (v.take 2 == [39, 39]) = true
-    · by_cases hl : ((sliceInner 2 v).length : Int) > w
-      · have h1 : truncSpec w ch ⟨tt, v⟩ = ⟨tt, [39, 39] ++ (sliceInner 2 v).take w.toNat ++ ch ++ [39, 39]⟩ := by
-          simp only [truncSpec, htt, beq_self_eq_true, if_true, hd]
-          rw [if_pos hl, takeInt_nonneg w hw0]
-        rw [h1]
-        apply truncSpec_wrapped w hw ch _ _ tt htt (Or.inl rfl)
-        rw [List.length_take]; omega
-      · have h1 : truncSpec w ch ⟨tt, v⟩ = ⟨tt, v⟩ := by
-          simp only [truncSpec, htt, beq_self_eq_true, if_true, hd]
-          rw [if_neg hl]
-        rw [h1, h1]
-    · have hd' : (v.take 2 == [39, 39]) = false := by simpa using hd
-      by_cases hl : ((sliceInner 1 v).length : Int) > w
-      · have h1 : truncSpec w ch ⟨tt, v⟩ = ⟨tt, [39] ++ (sliceInner 1 v).take w.toNat ++ ch ++ [39]⟩ := by
-          simp only [truncSpec, htt, beq_self_eq_true, if_true, hd', Bool.false_eq_true, if_false]
-          rw [if_pos hl, takeInt_nonneg w hw0]
-        rw [h1]
-        apply truncSpec_wrapped w hw ch _ _ tt htt
-        · right
-          refine ⟨rfl, ?_, ?_⟩
-          · -- the first kept character is `v[1]`, which is not a quote because `v[:2] ≠ "''"`
-            match v, hv', hd, hl with
-            | [], h, _, _ => simp at h
-            | [a], _, _, hl => simp [sliceInner] at hl; omega
-            | a :: b :: r, h, hd, hl =>
-              simp only [List.head?_cons, Option.some.injEq] at h
-              subst h
-              have hb : b ≠ 39 := by simpa using hd
-              have hn : 0 < w.toNat := by omega
-              have : sliceInner 1 (39 :: b :: r) = (b :: r).take (r.length) := by
-                simp [sliceInner]
-              rw [this]
-              cases r with
-              | nil => simp [sliceInner] at hl; omega
-              | cons c r' =>
-                obtain ⟨n, hn'⟩ : ∃ n, w.toNat = n + 1 := ⟨w.toNat - 1, by omega⟩
-                simp [hn', hb]
-          · intro h0
-            have : ((sliceInner 1 v).take w.toNat).length = 0 := by rw [h0]; rfl
-            rw [List.length_take] at this
-            omega
-        · rw [List.length_take]; omega
-      · have h1 : truncSpec w ch ⟨tt, v⟩ = ⟨tt, v⟩ := by
-          simp only [truncSpec, htt, beq_self_eq_true, if_true, hd', Bool.false_eq_true, if_false]
-          rw [if_neg hl]
-        rw [h1, h1]
+    simp only at htt
+    by_cases hl : ((sliceInner 1 v).length : Int) > w
+    · have h1 : truncSpec w ch ⟨tt, v⟩ = ⟨tt, [39] ++ (sliceInner 1 v).take w.toNat ++ ch ++ [39]⟩ := by
+        simp only [truncSpec, htt, beq_self_eq_true, if_true]
+        rw [if_pos hl, takeInt_nonneg w hw0]
+      rw [h1]
+      apply truncSpec_wrapped w hw ch _ tt htt
+      rw [List.length_take]; omega
+    · have h1 : truncSpec w ch ⟨tt, v⟩ = ⟨tt, v⟩ := by
+        simp only [truncSpec, htt, beq_self_eq_true, if_true]
+        rw [if_neg hl]
+      rw [h1, h1]
   · have h1 : truncSpec w ch t = t := by simp [truncSpec, htt]
     rw [h1, h1]
 
